@@ -2,6 +2,7 @@ package gowp
 
 import (
 	"go/types"
+	"strings"
 
 	"golang.org/x/tools/go/ssa"
 	"golang.org/x/tools/go/ssa/ssautil"
@@ -35,6 +36,8 @@ func (e *Engine) immutableComp(comp string) bool {
 	// const|maplit|nonnil`; the no-write obligation is part of every check)
 	for _, g := range e.Globals {
 		if sp := e.SSAPkgs[g.Pkg]; sp != nil && comp == quoteSym("G$"+sp.Pkg.Name()+"."+g.Name) {
+			return true
+		} else if sp == nil && comp == quoteSym("G$"+g.Pkg[strings.LastIndex(g.Pkg, "/")+1:]+"."+g.Name) {
 			return true
 		}
 	}
